@@ -234,6 +234,12 @@ pub fn run(cfg: &Cfg) -> Stats {
         }
         // the same call repeated after a rejected input (results must not depend on earlier calls)
         if mine() {
+            // ... nor on what an earlier call left unread (lists that stop being interpreted half way)
+            for (first, then) in [("38;9;9;1;4", "31"), ("48;7;1;2;3;4", "0;1"), ("58;3;9;9", "4"), ("38;2;1", "32"), ("1;38", "7"), ("38;9;9;1;4;256", "31")] {
+                for s in [first, then, then, first, first, then] {
+                    eval(s, &mut st, true);
+                }
+            }
             for (good, bad) in [("01;31", "01;3x"), ("38;5;208", "38;5;2080"), ("4", "")] {
                 for s in [good, bad, bad, good, bad, good, good] {
                     eval(s, &mut st, true);
